@@ -159,10 +159,10 @@ def run(ctx):
             r2.check(not bad, key, "every error of the helper is built from the row number it receives", w2j.loc(c),
                      why_fail=f"{[norm(b.exc)[:50] for b in bad]}")
     # choices validator cites __row
-    vcl = ctx.func("pyxform.validators.pyxform.choices:validate_choice_list", "C17.R2")
-    for x in walk_own(vcl.node):
-        if isinstance(x, ast.Raise) and x.exc is not None:
-            r2.check("__row" in norm(x) or _depends_text(vcl.node, x, "__row") or _depends_text(vcl.node, x, "INVALID_DUPLICATE"), f"validate_choice_list:{norm(x.exc)[:50]}", "choices-sheet errors cite the choice's row", vcl.loc(x))
+    # (decided by evaluation, not by the spelling of the key: choice_list_obligations / the choices block of C17.R6 require
+    # "[row : n]" in every error and warning of the validator, for every list of up to 3 choices)
+    from .c20 import choice_list_obligations as _clo
+    _clo(ctx, r2, "C17.R2")
     vps = ctx.func("pyxform.validators.pyxform.pyxform_reference:validate_pyxform_reference_syntax", "C17.R2")
     for x in walk_own(vps.node):
         if isinstance(x, ast.Raise) and x.exc is not None:
